@@ -160,6 +160,23 @@ EvalCall(c, ctx, sch) ==
                   IN VArr(RetType(c, sch), SelectSeqNN(rs))
      ELSE FnSem(f.sem, Strict([i \in 1..n |-> EvalArgValue(c.args[i], ctx, sch)]) \o defs)
 
+(* The invocations of the called function itself while a call is evaluated (property C03): one argument tuple  *)
+(* per invocation, in order.  Source order of the arguments, literals as written, omitted optional parameters   *)
+(* replaced by their defaults, an argument without a value passed as an absence; with [*] on the first argument *)
+(* one invocation per element, in element order, all with the same remaining arguments; an absent container     *)
+(* means no invocation at all.                                                                                  *)
+CallLog(c, ctx, sch) ==
+  LET f == FuncOf(sch, c.name)
+      n == Len(c.args)
+      defs == IF IsVariadic(f) \/ Len(f.params) + Len(f.opts) <= n THEN <<>>
+              ELSE Strict([i \in 1..(Len(f.params) + Len(f.opts) - n) |-> f.opts[n - Len(f.params) + i].def])
+  IN IF n > 0 /\ ArgMapEach(c.args[1]) > 0
+     THEN LET first == EvalIndexValue(c.args[1].e, ctx, sch)
+              rest == Strict([i \in 1..(n - 1) |-> EvalArgValue(c.args[i + 1], ctx, sch)])
+          IN IF IsNil(first) THEN <<>>
+             ELSE LET es == Elems(first) IN Strict([i \in 1..Len(es) |-> <<es[i]>> \o rest \o defs])
+     ELSE <<Strict([i \in 1..n |-> EvalArgValue(c.args[i], ctx, sch)]) \o defs>>
+
 (* element sequence a comparison is applied to when its lhs is vector-valued *)
 CmpElems(c, ctx, sch) ==
   LET base == EvalBase(c.lhs.id, ctx, sch)
